@@ -94,7 +94,7 @@ def mkParams (sentinel : Content) (input output : Path) (lua : List Nat) (univ :
       | none => false }
 
 def regionName : Region → String
-  | .F10 => "F10" | .F11 => "F11" | .F11b => "F11b" | .F12 => "F12" | .F13 => "F13" | .E => "E" | .X => "X"
+  | .F10 => "F10" | .F11b => "F11b" | .F12 => "F12" | .F13 => "F13" | .E => "E" | .X => "X"
 
 def insertSorted (e : Path × Content) : List (Path × Content) → List (Path × Content)
   | [] => [e]
